@@ -463,6 +463,10 @@ void BSTriShape::Sync(NiStreamReversible& stream) {
 
 	bool syncVertexData = true;
 
+	// Vertex and triangle counts as they are stored in this block. They size the particle data below and
+	// differ from the counts of the shape when a skinned shape is written (its data lives in the skin partition).
+	bool storedCountsZeroed = false;
+
 	if (stream.GetMode() == NiStreamReversible::Mode::Reading) {
 		if (stream.GetVersion().User() >= 12 && stream.GetVersion().Stream() < 130) {
 			uint16_t numTris = 0;
@@ -487,6 +491,7 @@ void BSTriShape::Sync(NiStreamReversible& stream) {
 
 				stream.Sync(numUInt);
 				syncVertexData = false;
+				storedCountsZeroed = true;
 			}
 			else {
 				auto numTris = static_cast<uint16_t>(numTriangles);
@@ -585,23 +590,36 @@ void BSTriShape::Sync(NiStreamReversible& stream) {
 		stream.Sync(particleDataSize);
 
 		if (particleDataSize > 0) {
-			particleVerts.resize(numVertices);
-			particleNorms.resize(numVertices);
-			particleTris.resize(numTriangles);
+			uint16_t storedNumVertices = numVertices;
+			uint32_t storedNumTriangles = numTriangles;
+			if (storedCountsZeroed) {
+				// The reader sizes the particle data by the counts written above
+				if (!HasType<BSDynamicTriShape>())
+					storedNumVertices = 0;
 
-			for (uint16_t i = 0; i < numVertices; i++) {
+				storedNumTriangles = 0;
+			}
+
+			if (stream.GetMode() == NiStreamReversible::Mode::Reading || particleVerts.size() < storedNumVertices)
+				particleVerts.resize(storedNumVertices);
+			if (stream.GetMode() == NiStreamReversible::Mode::Reading || particleNorms.size() < storedNumVertices)
+				particleNorms.resize(storedNumVertices);
+			if (stream.GetMode() == NiStreamReversible::Mode::Reading || particleTris.size() < storedNumTriangles)
+				particleTris.resize(storedNumTriangles);
+
+			for (uint16_t i = 0; i < storedNumVertices; i++) {
 				stream.SyncHalf(particleVerts[i].x);
 				stream.SyncHalf(particleVerts[i].y);
 				stream.SyncHalf(particleVerts[i].z);
 			}
 
-			for (uint16_t i = 0; i < numVertices; i++) {
+			for (uint16_t i = 0; i < storedNumVertices; i++) {
 				stream.SyncHalf(particleNorms[i].x);
 				stream.SyncHalf(particleNorms[i].y);
 				stream.SyncHalf(particleNorms[i].z);
 			}
 
-			for (uint32_t i = 0; i < numTriangles; i++)
+			for (uint32_t i = 0; i < storedNumTriangles; i++)
 				stream.Sync(particleTris[i]);
 		}
 	}
